@@ -84,10 +84,12 @@ def alphaIndex (c : Char) : Option Nat :=
   if i < alphabet.length then some i else none
 
 /-- value of a most-significant-first base-32 numeral (`none`: a character outside the alphabet) -/
-def numeralValue (cs : List Char) : Option Nat :=
-  cs.foldl (fun acc c => match acc, alphaIndex c with
-    | some a, some d => some (a * 32 + d)
-    | _, _ => none) (some 0)
+def numeralStep (acc : Option Nat) (c : Char) : Option Nat :=
+  match acc, alphaIndex c with
+  | some a, some d => some (a * 32 + d)
+  | _, _ => none
+
+def numeralValue (cs : List Char) : Option Nat := cs.foldl numeralStep (some 0)
 
 /-! ## The service function -/
 
